@@ -19,7 +19,9 @@ RULE = ('per (formula, signal set): BFS over ALL schedules, a schedule being a s
         'long layer: 70/71-sample signals, every schedule of at most two calls whose first call delivers (c_x, c_y) with c_v from a cut alphabet '
         '(quick: 12 cuts around the 64th sample and the ends; thorough: every fourth c_v in 0..71 plus those); '
         'presentations of the same schedules: variables without new samples left out of the call; and a caller that keeps one list and one set of [t, v] objects per '
-        'variable, refills them in place for every call and overwrites the list update() returned once it has read it')
+        'variable, refills them in place for every call and overwrites the list update() returned once it has read it; '
+        'time-axis layer: formulas without bounded operators on the same signal sets with the time-stamps mapped to T0 + d*t for (T0, d) in {(1e6, 2^-11), (1.7e9, 1), (0, 2^-20), (2^40, 1)} '
+        '(large offsets, tiny spacings, all exactly representable), all schedules, output times mapped back')
 ASSUMPTIONS = ['signals: samples on the half-unit grid at fixed time sets, values in {-1,2}; formulas <= 2 operators (past, and pastified bounded future without until)',
                'reference = vf/dref.py on the complete signal (past formulas do not depend on later input)']
 
@@ -63,6 +65,7 @@ class ScheduleModel(object):
         self.reuse_buffers = False   # True: the caller keeps one list and one set of [t, v] pair objects per variable, refills them in place for every
         #                              call, and overwrites the list that update() returned to it once it has read it
         self.exact = False
+        self.warp = None        # (T0, d): the monitor is fed the time-stamps T0 + d*t (exact in binary floating point) and its output times are mapped back
         self.outputs = set()
         # data sets that start at t0 > 0: the unrepaired monitor is documented (open finding) to behave like the shifted-start
         # variant; it is used to tell that defect apart from every other deviation
@@ -98,6 +101,9 @@ class ScheduleModel(object):
             # (only once the variable has received samples in an earlier call: a first call that does not mention a variable at all is
             # not covered by the statement)
             batches = {v: b for i, (v, b) in enumerate(batches.items()) if b or p[i] == 0}
+        if self.warp:
+            T0, d = self.warp
+            batches = {v: [(T0 + d * t, x) for t, x in b] for v, b in batches.items()}
         if self.reuse_buffers:
             args = []
             for v, b in batches.items():
@@ -119,6 +125,9 @@ class ScheduleModel(object):
             out = impl.outcome(impl.ct_update, obj, batches)
             if out[0] == 'ok':
                 out = ('ok', copy.deepcopy(out[1]))
+        if self.warp and out[0] == 'ok' and isinstance(out[1], list):
+            T0, d = self.warp
+            out = ('ok', [[(q[0] - T0) / d, q[1]] if isinstance(q, (list, tuple)) and len(q) == 2 else q for q in out[1]])
         self._compared = False
         obj._vf_msg = self.judge(obj, out)
         obj._vf_compared = self._compared
@@ -333,7 +342,21 @@ def shards(tier):
     out += [{'formulas': [(F.to_json(f), False) for f in it[i:i + 3]], 'ints': True} for i in range(0, len(it), 3)]
     ar = arith_formulas()
     out += [{'formulas': [(F.to_json(f), False) for f in ar[i:i + 2]], 'arith': True} for i in range(0, len(ar), 2)]
+    wf = warp_formulas(tier)
+    out += [{'formulas': [(F.to_json(f), False) for f in wf[i:i + 2]], 'warp': True} for i in range(0, len(wf), 2)]
     return out
+
+
+# time-stamps with a large offset and / or a tiny spacing, all exactly representable: T0 + d * t for the half-grid times t
+WARPS = ((1000000.0, 2.0 ** -11), (1.7e9, 1.0), (0.0, 2.0 ** -20), (2.0 ** 40, 1.0))
+
+
+def warp_formulas(tier):
+    """formulas without bounded operators (their meaning does not change under an order-preserving change of the time axis)"""
+    fs = [f for f, p in formula_set(tier) if not p and not any(F.interval(g) is not None for g in F.subforms(f))]
+    fs += [('-', F.X, F.Y), ('since', None, F.PX, F.PY), ('and', ('once', None, F.PX), ('historically', None, F.PY)), ('xor', F.X, F.Y)]
+    fs = list(dict.fromkeys(fs))
+    return fs[::3] if tier == 'quick' else fs
 
 
 def deep_signal_sets(nvars, tier):
@@ -370,10 +393,16 @@ def run_shard(shard, tier, res):
                 except refsem.DomainError:
                     continue      # the data leave the domain of an arithmetic function
                 m.exact = bool(shard.get('big'))
+                if shard.get('warp'):
+                    m.warp = WARPS[(si + res.formulas) % len(WARPS)]
+                    res.flags['searches_on_offset_or_tiny_time_axes'] += 1
 
             def on_violation(hist, msg, m=m, sig=sig):
                 case = {'formula': fj, 'spec': text, 'vars': vs, 'pastify': pastify, 'exact': m.exact,
                         'signals': {v: [list(p) for p in s] for v, s in sig.items()}, 'schedule': [list(st) for st in hist]}
+                if m.warp:
+                    case['warp'] = list(m.warp)
+                    msg += ' (time axis: the monitor receives the time-stamps %r + %r * t)' % m.warp
                 res.violation(mod, case, msg)
                 res.outcomes[msg.split(' is ')[0][:24]] += 1
             st = explore.bfs(m, 64, 20000 if tier == 'quick' else 200000, 'first' if tier == 'quick' else 'all', on_violation)
@@ -440,6 +469,7 @@ def check_case(case):
     m.exact = bool(case.get('exact'))
     m.omit_empty = bool(case.get('omit_empty'))
     m.reuse_buffers = bool(case.get('reuse_buffers'))
+    m.warp = tuple(case['warp']) if case.get('warp') else None
     obj = m.fresh()
     hist = tuple(tuple(s) for s in case['schedule'])
     msgs = []
